@@ -30,19 +30,45 @@ pub fn exact_limit() -> f64 {
 /// returned by `diff_array` when the reference cannot bound its own rounding error: the case is discarded
 pub const UNDECIDABLE: &str = "UNDECIDABLE: non-finite magnitude in the reference";
 
+/// Absolute slack for the FORWARD value of a single operation. There the library and the reference evaluate
+/// the same formula on the same operands, so the result is relatively accurate down to the subnormal range
+/// (cancellation is covered by the magnitude); the slack only has to absorb subnormal rounding and, in the f32
+/// build, results below f32's normal range. The general `atol` would hide a formula that loses all RELATIVE
+/// accuracy in the tails (sigmoid of very negative arguments computed as 1 - p).
+pub fn atol_forward() -> f64 {
+    if IS_F32 {
+        1e-35
+    } else {
+        1e-290
+    }
+}
+
 pub fn close(got: f64, want: f64, mag: f64, exact: bool) -> bool {
+    close_with(got, want, mag, exact, atol())
+}
+
+pub fn close_with(got: f64, want: f64, mag: f64, exact: bool, atol: f64) -> bool {
     if !got.is_finite() {
         return false;
     }
     if exact {
         got == want
     } else {
-        (got - want).abs() <= rtol() * (mag.abs() + want.abs()) + atol()
+        (got - want).abs() <= rtol() * (mag.abs() + want.abs()) + atol
     }
 }
 
 /// first mismatch between a corgi array and expected dims/values, if any
 pub fn diff_array(got: &Array, dims: &[usize], want: &[f64], mags: &[f64], exact: bool) -> Option<String> {
+    diff_array_with(got, dims, want, mags, exact, atol())
+}
+
+/// `diff_array` with the tight absolute slack of single-operation forward values
+pub fn diff_array_forward(got: &Array, dims: &[usize], want: &[f64], mags: &[f64], exact: bool) -> Option<String> {
+    diff_array_with(got, dims, want, mags, exact, atol_forward())
+}
+
+pub fn diff_array_with(got: &Array, dims: &[usize], want: &[f64], mags: &[f64], exact: bool, atol: f64) -> Option<String> {
     if got.dimensions() != dims {
         return Some(format!("dimensions {:?}, expected {:?}", got.dimensions(), dims));
     }
@@ -56,13 +82,13 @@ pub fn diff_array(got: &Array, dims: &[usize], want: &[f64], mags: &[f64], exact
     }
     let exact = exact && mags.iter().all(|m| m.abs() < exact_limit());
     for i in 0..want.len() {
-        if !close(gv[i] as f64, want[i], mags[i], exact) {
+        if !close_with(gv[i] as f64, want[i], mags[i], exact, atol) {
             return Some(format!(
                 "element {} is {:?}, expected {:?} ({}); got {:?} expected {:?}",
                 i,
                 gv[i],
                 want[i],
-                if exact { "exact".to_string() } else { format!("tolerance {:e}", rtol() * (mags[i].abs() + want[i].abs()) + atol()) },
+                if exact { "exact".to_string() } else { format!("tolerance {:e}", rtol() * (mags[i].abs() + want[i].abs()) + atol) },
                 &gv[..gv.len().min(12)],
                 &want[..want.len().min(12)]
             ));
